@@ -190,6 +190,9 @@ def _pykey(k):
 def dict_store(I, st, ref, k, v):
     h = st.heap[ref.oid]
     kt, vt = I.term(k), I.term(v)
+    ent = h.fields.get("$entries")
+    if ent is not None:
+        h.fields["$entries"] = ent + [(k, v)]
     pk = _pykey(k)
     if h.ckeys is not None and pk is not None:
         if pk not in h.ckeys:
@@ -201,7 +204,12 @@ def dict_store(I, st, ref, k, v):
             # leaving the fully-concrete regime
             h.ckeys = None
         has = z3.Contains(h.keys, z3.Unit(kt))
-        h.keys = z3.If(has, h.keys, z3.Concat(h.keys, z3.Unit(kt)))
+        if I.valid(st, has):
+            pass                                   # key present on this path: order unchanged
+        elif not I.feasible(st, has):
+            h.keys = z3.Concat(h.keys, z3.Unit(kt))
+        else:
+            h.keys = z3.If(has, h.keys, z3.Concat(h.keys, z3.Unit(kt)))
     h.vals = z3.Store(h.vals, kt, vt)
 
 
@@ -339,6 +347,7 @@ def delitem(I, st, ov, kv, ctx):
 
 def dict_remove(I, st, ref, k):
     h = st.heap[ref.oid]
+    h.fields.pop("$entries", None)
     pk = _pykey(k)
     kt = I.term(k)
     if h.ckeys is not None and pk is not None:
@@ -355,3 +364,4 @@ def dict_remove(I, st, ref, k):
     st.pc.append(z3.Not(z3.Contains(pre, z3.Unit(kt))))
     st.pc.append(z3.Not(z3.Contains(post, z3.Unit(kt))))
     h.keys = z3.Concat(pre, post)
+    st.ghost["$dict_removed:%d" % ref.oid] = (pre, kt, post)
